@@ -161,11 +161,12 @@ struct Env {
     }
 };
 
-void runBehaviour(Ctx &ctx, LoopPeer &peer, const QString &caseId, const QJsonArray &steps)
+void runBehaviour(Ctx &ctx, LoopPeer &peer, const QString &caseId, const QJsonArray &steps, bool sasl2)
 {
     ctx.reset(caseId, { { "ids", jarr(kIds) } });
     ctx.out.flush();  // a crash inside the library must not lose the executions already recorded
     Env e(peer);
+    e.srv->setSasl2(sasl2);  // "transport":"sasl2": sessions are negotiated with SASL 2 / bind 2 / inline stream management
     QMap<QString, QString> toOf;
     QMap<QString, QString> wireOf;  // the id each request's stanza was written with (read from what the client wrote)
     int stepNo = 0;
@@ -300,7 +301,7 @@ QXV_DRIVER(iq)
         if (++n < first) {
             continue;
         }
-        runBehaviour(ctx, peer, QString("q%1").arg(n), bv.toObject()["steps"].toArray());
+        runBehaviour(ctx, peer, QString("q%1").arg(n), bv.toObject()["steps"].toArray(), bv.toObject()["transport"].toString() == "sasl2");
     }
     return 0;
 }
